@@ -1,0 +1,11 @@
+//go:build verif
+
+package engine
+
+// SimSetMemFree replaces the source of free memory consulted by makeSlice for deterministic simulation.
+// It returns a function that restores the original. Only available with the verif build tag.
+func SimSetMemFree(f func() int64) (restore func()) {
+	orig := memFree
+	memFree = f
+	return func() { memFree = orig }
+}
